@@ -61,6 +61,8 @@ def base_cases(r, tier):
     spec4 = copy.deepcopy(spec)
     pre4 = [{"p": "dst", "k": "d"}, {"p": "dst/src", "k": "d"}, {"p": "dst/src/d1", "k": "d"}, {"p": "dst/src/d1/tiny", "k": "d"}]
     out.append({"name": "collision", "spec": spec4, "pre": pre4, "bs": "4096", "expect_fail": True})
+    out.append({"name": "multi-block-no-cfr", "spec": copy.deepcopy(spec), "pre": [], "bs": "4096", "expect_fail": False,
+                "rules": [{"id": "r", "sys": "copy_file_range", "under": "@ROOT@", "action": "fault", "errno": 18}]})
     if tier == "thorough":
         for k in range(4):
             sp = [{"p": "src", "k": "d"}] + tree.gen_tree(r, depth=3, fanout=4, kinds=("f", "f", "d", "l"), prefix="src", nonutf8=True,
@@ -81,7 +83,7 @@ def gen_cases(tier, seed):
                 w = [1, 2, 4, 16, 64][k % 5] if k < 5 else r.choice([1, 2, 3, 4, 8, 16, 64])
                 yield {"group": gid, "name": bc["name"], "spec": bc["spec"], "pre": bc["pre"], "driver": driver, "workers": w,
                        "args": ["--driver", driver, "-w", str(w), "--block-size", bc["bs"], "-r", "src", "dst"], "plan": sch,
-                       "expect_fail": bc["expect_fail"], "fs": "ext4"}
+                       "expect_fail": bc["expect_fail"], "fs": "ext4", "rules": bc.get("rules", [])}
         gid += 1
 
 
@@ -106,7 +108,8 @@ def run_case(case):
         tree.materialize(root, tree.fix_mtimes(case["spec"]))
         tree.materialize(root, tree.fix_mtimes(case["pre"], 1_500_000_000_000_000_000))
         plan = dict(case["plan"])
-        plan.update({"log_mode": "full", "pct_horizon": 600, "sched_cap_us": 3000})
+        plan.update({"log_mode": "full", "pct_horizon": 600, "sched_cap_us": 3000,
+                     "rules": [dict(x, under=root + "/") for x in case.get("rules", [])]})
         run = core.run_xcp(sb, case["args"], plan)
         if run.verdict != "exited":
             res["inconc"].append("run-" + run.verdict)
